@@ -82,12 +82,31 @@ def deco_operand(c, rng, p):
 
 
 def flat_toks(c, rng):
-    """canonical text with the brackets of one functor operand of the root removed, or None"""
-    if c['k'] == 'A':
+    """canonical text with the brackets of ONE functor operand removed somewhere in the term (at the root or inside a
+    bracketed sub-term), so that two slashes share a level; None when the value has no functor operand"""
+    sites = []
+
+    def collect(n, path):
+        if n['k'] == 'A':
+            return
+        if n['l']['k'] == 'F':
+            sites.append((path, 'l'))
+        if n['r']['k'] == 'F':
+            sites.append((path, 'r'))
+        collect(n['l'], path + 'l')
+        collect(n['r'], path + 'r')
+    collect(c, '')
+    if not sites:
         return None
-    opts = []
-    if c['l']['k'] == 'F':
-        opts.append(show_toks(c['l']) + [T(c['s'])] + operand_toks(c['r']))
-    if c['r']['k'] == 'F':
-        opts.append(operand_toks(c['l']) + [T(c['s'])] + show_toks(c['r']))
-    return rng.choice(opts) if opts else None
+    target = rng.choice(sites)
+
+    def emit(n, path):
+        if n['k'] == 'A':
+            return show_toks(n)
+        def side(child, which):
+            ts = emit(child, path + which)
+            if child['k'] == 'F' and (path, which) != target:
+                return [T('(')] + ts + [T(')')]
+            return ts
+        return side(n['l'], 'l') + [T(n['s'])] + side(n['r'], 'r')
+    return emit(c, '')
